@@ -234,6 +234,12 @@ func c12SchedScenario(c *fw.Ctx, sp c12Spec) schedScenario {
 					vl := &visitLog{Store: st, began: make(chan struct{})}
 					init := func() {
 						add("e1", "boxa", 2*time.Hour)
+						if !sp.Corrupt {
+							// more mailboxes than the one being visited when shutdown arrives: the scan is
+							// abandoned with part of the walk still ahead
+							add("e2", "boxb", 2*time.Hour)
+							add("e3", "boxc", 2*time.Hour)
+						}
 						if sp.Corrupt {
 							// an index that does not decode: VisitMailboxes, and with it every scan, fails
 							_ = filepath.Walk(sh.Dir, func(p string, info os.FileInfo, err error) error {
